@@ -5,21 +5,22 @@ import os
 # property -> rules deciding its structural clauses (DESIGN.md section 4)
 PROPS = {
     'C01': ['DISPATCH', 'ACDUAL', 'FINCHK', 'SYMIDX', 'ORDTOTAL', 'FRAMERESET', 'MERGE', 'CACHELIFE', 'SIBLING', 'ERASER', 'FORWARD', 'KEYFIELDS', 'QUEUEENDS', 'CLIOPT', 'FLAGRESET', 'DRAIN', 'INSETLABEL'],
-    'C02': ['UNIONCONTRIB', 'PRODUCT', 'WORKLIST', 'COW', 'FORWARD', 'UNIONTRANSL', 'ACCRET', 'SCRATCHRESET', 'NULLPARAM', 'TENTATIVE', 'REINDEXALL'],
-    'C03': ['SIZEEQ', 'WORKLIST', 'DRAIN', 'COW', 'FORWARD', 'COUNTGUARD', 'USEMOVE', 'ACCRET', 'KEPTRULES', 'COLLECTALL'],
+    'C02': ['UNIONCONTRIB', 'PRODUCT', 'WORKLIST', 'COW', 'FORWARD', 'UNIONTRANSL', 'ACCRET', 'SCRATCHRESET', 'NULLPARAM', 'TENTATIVE', 'REINDEXALL', 'ALPHASRC'],
+    'C03': ['SIZEEQ', 'WORKLIST', 'DRAIN', 'COW', 'FORWARD', 'COUNTGUARD', 'USEMOVE', 'ACCRET', 'KEPTRULES', 'COLLECTALL', 'ALPHASRC'],
     'C04': ['KIND', 'SIMMAP', 'COPYALL', 'LOOPBOUND', 'TUPLEPOS', 'FORWARD', 'KEYFIELDS', 'CLIOPT', 'INSETLABEL', 'PREPASS', 'USEDSTATES'],
-    'C05': ['SIMMAP', 'KIND', 'LOOPBOUND', 'DRAIN', 'WORKLIST', 'SIZEEQ', 'COW', 'FORWARD', 'ACCRET', 'INSETLABEL', 'COPYALL', 'USEDSTATES'],
+    'C05': ['SIMMAP', 'KIND', 'LOOPBOUND', 'DRAIN', 'WORKLIST', 'SIZEEQ', 'COW', 'FORWARD', 'ACCRET', 'INSETLABEL', 'COPYALL', 'USEDSTATES', 'ALPHASRC'],
     'C07': ['DISPATCH', 'ACDUAL', 'FINCHK', 'MERGE', 'PARALLEL', 'COLLECTALL', 'CACHELIFE', 'SIBLING', 'FORWARD', 'QUEUEENDS', 'CLIOPT', 'SCRATCHRESET', 'GENPRE', 'DRAIN', 'FLAGRESET'],
     'C08': ['UNIONCONTRIB', 'PRODUCT', 'WORKLIST', 'DRAIN', 'INIT', 'COLLECTALL', 'ARITY', 'TUPLEPOS', 'LOADROLE', 'FORWARD', 'USEMOVE', 'UNIONTRANSL', 'ACCRET', 'SCRATCHRESET', 'NULLPARAM', 'REINDEXALL', 'BACKTRACK'],
     'C09': ['DISPATCH', 'ACDUAL', 'FINCHK', 'MEMO', 'HASHEQ', 'ORDTOTAL', 'FORWARD', 'ADDRKEY', 'QUEUEENDS', 'CLIOPT', 'FLAGRESET', 'DRAIN', 'ITERINVAL', 'CONGRMATCH'],
-    'C10': ['UNIONCONTRIB', 'PRODUCT', 'PAIRFIELD', 'FINCHK', 'WORKLIST', 'DRAIN', 'PARAMPATH', 'COW', 'FORWARD', 'NFAOPS', 'UNIONTRANSL', 'ACCRET', 'SCRATCHRESET', 'COLLECTALL', 'NULLPARAM', 'REINDEXALL'],
+    'C10': ['UNIONCONTRIB', 'PRODUCT', 'PAIRFIELD', 'FINCHK', 'WORKLIST', 'DRAIN', 'PARAMPATH', 'COW', 'FORWARD', 'NFAOPS', 'UNIONTRANSL', 'ACCRET', 'SCRATCHRESET', 'COLLECTALL', 'NULLPARAM', 'REINDEXALL', 'ALPHASRC'],
     'C11': ['COW', 'CLEARALL', 'HASHCONS', 'CACHELIFE', 'ALPHASRC', 'DISPATCH'],
     'C13': ['TEXT', 'LOADROLE', 'PARAMPATH', 'PAIRFIELD', 'FORWARD', 'SCRATCHRESET', 'NOTHROW', 'COLLECTALL', 'DRAIN', 'BACKTRACK'],
     'C12': ['COW', 'HASHCONS', 'ITER', 'NONEMPTY', 'CLEARALL', 'PARAMPATH', 'USEDSTATES'],
-    'C14': ['KIND', 'COW', 'FORWARD', 'SCRATCHRESET', 'HASHCONS', 'REINDEXALL'],
-    'C15': ['FINCHK', 'WORKLIST', 'DRAIN', 'KIND', 'HASHCONS', 'COW', 'FORWARD', 'COUNTGUARD', 'ACCRET', 'KEPTRULES', 'COLLECTALL'],
-    'C17': ['CANON', 'TEXT', 'BACKTRACK'],
-    'C18': ['REFCNT', 'CANON'],
+    'C14': ['KIND', 'COW', 'FORWARD', 'SCRATCHRESET', 'HASHCONS', 'REINDEXALL', 'ALPHASRC'],
+    'C15': ['FINCHK', 'WORKLIST', 'DRAIN', 'KIND', 'HASHCONS', 'COW', 'FORWARD', 'COUNTGUARD', 'ACCRET', 'KEPTRULES', 'COLLECTALL', 'ALPHASRC'],
+    'C16': ['INSETLABEL', 'COPYALL', 'STALESIZE', 'QUEUEENDS', 'DRAIN', 'COLLECTALL', 'LOOPBOUND', 'INIT', 'ITERINVAL'],
+    'C17': ['CANON', 'TEXT', 'BACKTRACK', 'COPYALL'],
+    'C18': ['REFCNT', 'CANON', 'COPYALL'],
     'C19': ['KIND', 'SIMMAP', 'DISPATCH', 'SIBLING', 'ACDUAL', 'ORDTOTAL', 'FRAMERESET', 'HASHEQ', 'MEMO', 'KEYFIELDS', 'ADDRKEY', 'QUEUEENDS', 'CLIOPT', 'FLAGRESET', 'INSETLABEL', 'PREPASS', 'CONGRMATCH', 'USEDSTATES'],
     'C20': ['INIT', 'FALLOFF', 'PAIRFIELD', 'COPYALL', 'FRAMERESET', 'CACHELIFE', 'LOOPBOUND', 'ERASER', 'STALESIZE', 'ITER', 'NONEMPTY', 'USEMOVE', 'INSETLABEL', 'GENPRE', 'REFCNT', 'NULLPARAM', 'ITERINVAL'],
 }
@@ -59,6 +60,9 @@ FILTER = {
     ('C08', 'USEMOVE'): r'bdd_|symbolic', ('C15', 'COUNTGUARD'): r'explicit_tree_candidate', ('C03', 'COUNTGUARD'): r'explicit_tree_useless',
     ('C01', 'QUEUEENDS'): r'explicit_tree|antichain', ('C07', 'QUEUEENDS'): r'antichain|tree_incl|bdd_', ('C09', 'QUEUEENDS'): r'explicit_finite|congr_product|antichain',
     ('C12', 'COW'): r'explicit_tree',
+    ('C17', 'COPYALL'): r'mtbdd/', ('C18', 'COPYALL'): r'mtbdd/',
+    ('C02', 'ALPHASRC'): r'explicit_tree_(isect|union)', ('C03', 'ALPHASRC'): r'explicit_tree_(useless|unreach)', ('C05', 'ALPHASRC'): r'explicit_tree_(useless|unreach)|explicit_tree_aut_core', ('C10', 'ALPHASRC'): r'explicit_finite', ('C15', 'ALPHASRC'): r'explicit_tree_(candidate|unreach)', ('C14', 'ALPHASRC'): r'explicit_tree_aut_core',
+    ('C16', 'COPYALL'): r'explicit_lts|splitting_relation|shared_counter|shared_list|caching_allocator|smart_set|binary_relation', ('C16', 'STALESIZE'): r'explicit_lts|splitting_relation|shared_counter|shared_list|caching_allocator|smart_set|binary_relation', ('C16', 'QUEUEENDS'): r'explicit_lts|splitting_relation|shared_counter|shared_list|caching_allocator|smart_set|binary_relation', ('C16', 'DRAIN'): r'explicit_lts|splitting_relation|shared_counter|shared_list|caching_allocator|smart_set|binary_relation', ('C16', 'COLLECTALL'): r'explicit_lts|splitting_relation|shared_counter|shared_list|caching_allocator|smart_set|binary_relation', ('C16', 'LOOPBOUND'): r'explicit_lts|splitting_relation|shared_counter|shared_list|caching_allocator|smart_set|binary_relation', ('C16', 'INIT'): r'explicit_lts|splitting_relation|shared_counter|shared_list|caching_allocator|smart_set|binary_relation', ('C16', 'ITERINVAL'): r'explicit_lts|splitting_relation|shared_counter|shared_list|caching_allocator|smart_set|binary_relation',
     ('C11', 'DISPATCH'): r'explicit_tree_incl|explicit_finite_incl',
     ('C02', 'REINDEXALL'): r'explicit_tree', ('C08', 'REINDEXALL'): r'bdd_', ('C10', 'REINDEXALL'): r'explicit_finite', ('C14', 'REINDEXALL'): r'explicit_tree',
     ('C09', 'ITERINVAL'): r'explicit_finite|normal_form|congr|antichain',
@@ -75,6 +79,7 @@ FILTER = {
 # (property, rule) -> regex on the obligation id: only those clauses of the rule are attributed to the property
 OBFILTER = {
     ('C18', 'CANON'): r'^C3$',
+    ('C02', 'ALPHASRC'): r'^result$', ('C03', 'ALPHASRC'): r'^result$', ('C05', 'ALPHASRC'): r'^result$', ('C10', 'ALPHASRC'): r'^result$', ('C15', 'ALPHASRC'): r'^result$', ('C14', 'ALPHASRC'): r'^result$',   # the result is over the operand's alphabet (its language is stated over symbol names)
     ('C11', 'DISPATCH'): r'^early-verdict$',   # a shortcut on physical sharing makes the verdict depend on how an operand was created      # memo tables hold raw, uncounted node pointers: they must not outlive one application
 }
 
